@@ -205,7 +205,7 @@ func (w *writerA) implicitClose() {
 				if callsStatic(ev, w.begin) {
 					be = errOf(p.X, ev.Result)
 				}
-				if ev.Kind == core.EvStore && isFieldAddr(ev.Addr, w.writer) && ev.Depth == 0 && !ev.Val.IsNil() {
+				if ev.Kind == core.EvStore && isFieldAddr(ev.Addr, w.writer) && own(ev) && !ev.Val.IsNil() {
 					b := be
 					if b == nil || !hasLit(p, ev.NLits, true, func(t *core.Term) bool { return isEqNil(t, func(y *core.Term) bool { return y == b }) }) {
 						ok2, why2 = false, "Conn.writer is installed at "+c.P.Pos(ev.Instr.Pos())+" although beginMessage may have failed"
